@@ -21,6 +21,17 @@ package main
 // their own, so two first calls can interleave inside the pool's
 // check-then-dial and the sweeper can be pre-empted anywhere.
 //
+// Faults: reset of a backend connection under a call, a backend that never
+// answers, a backend that leaves the table under calls, and a backend outage
+// (listener closed, connections reset, dials refused; back under the same
+// address after a number of calls and an interval of simulated time, followed
+// by a quiet interval in which fabio's connections may reconnect). The
+// connection oracles: reuse (no new dial once a call has completed on a healthy
+// backend, again after an outage), cleanup (everything fabio holds to a backend
+// that left the table is closed within the bound) and one connection per
+// backend (no lasting surplus of open connections over the most calls that
+// were ever in flight together).
+//
 // Nothing that depends on grpc-go's frame batching reaches the trace: the
 // trace consists of the driver's events and of per-call / per-backend
 // summaries printed by the driver at quiescent states in canonical order.
@@ -48,6 +59,7 @@ import (
 	"github.com/fabiolb/fabio/route"
 
 	"google.golang.org/grpc"
+	grpcbackoff "google.golang.org/grpc/backoff"
 	"google.golang.org/grpc/codes"
 	"google.golang.org/grpc/credentials/insecure"
 	"google.golang.org/grpc/metadata"
@@ -117,6 +129,17 @@ type c16Change struct {
 	AfterDone int `json:"after_completed_calls"`
 }
 
+// c16Outage is the fault "backend outage": the backend stays in the table, its listener goes down (dials are
+// refused), its established connections are reset; after a number of further completed calls and an interval
+// of simulated time the listener is back under the same address.
+type c16Outage struct {
+	Backend   int           `json:"backend"`
+	AfterDone int           `json:"begins_after_completed_calls"`
+	Calls     int           `json:"ends_after_further_completed_calls"`
+	Duration  time.Duration `json:"then_stays_down_for"`
+	Grace     time.Duration `json:"quiet_time_after_return"`
+}
+
 type c16Scenario struct {
 	Backends        []string      `json:"backends"`
 	Callers         int           `json:"callers"`
@@ -124,6 +147,7 @@ type c16Scenario struct {
 	Changes         []c16Change   `json:"table_changes"`
 	Calls           []c16Call     `json:"calls"`
 	ResetCall       int           `json:"reset_backend_conn_of_call"` // -1: no fault
+	Outage          *c16Outage    `json:"backend_outage,omitempty"`
 	ShutdownTimeout time.Duration `json:"grpc_shutdown_timeout"`
 	Stick           int           `json:"stick"`
 }
@@ -409,6 +433,47 @@ func c16Gen(g *simcore.Tape, thorough bool) *c16Scenario {
 	if g.Chance(20) {
 		sc.ResetCall = g.Intn(nc)
 	}
+	if g.Chance(25) {
+		// a backend the first table routes to has an outage: it begins once AfterDone calls have completed (calls
+		// before), lasts until Calls further calls have completed (calls during) plus an interval of simulated
+		// time, and the remaining calls run after it
+		var cands []int
+		for b := 0; b < nb; b++ {
+			if sc.Tables[0].has(b) {
+				cands = append(cands, b)
+			}
+		}
+		o := &c16Outage{Backend: cands[g.Intn(len(cands))]}
+		o.AfterDone = g.Intn(nc)
+		o.Calls = g.Range(0, 3)
+		o.Duration = simcore.Pick(g, []time.Duration{time.Second, 50 * time.Millisecond, 4 * time.Second, 12 * time.Second, 30 * time.Second})
+		o.Grace = simcore.Pick(g, []time.Duration{0, 3 * time.Second, 15 * time.Second, time.Minute})
+		sc.Outage = o
+		// more than half of the calls are steered to a method (and dsthost) that the first table routes to this
+		// backend, one after the other, so that the outage meets calls and is not merely survived by the others
+		for i := range sc.Calls {
+			c := &sc.Calls[i]
+			if !g.Chance(60) {
+				continue
+			}
+			_, meth, _ := strings.Cut(c.Method[1:], "/")
+		steer:
+			for s := 0; s < ns; s++ {
+				for _, h := range []string{c.DstHost, "", "beta"} {
+					m := c16Services[s] + "/" + meth
+					for _, x := range c16Expect(&sc.Tables[0], m, h) {
+						if x == o.Backend {
+							c.Method, c.DstHost = m, h
+							break steer
+						}
+					}
+				}
+			}
+			if i > 0 && g.Chance(70) {
+				c.After = i - 1
+			}
+		}
+	}
 	return sc
 }
 
@@ -479,6 +544,7 @@ type c16CallState struct {
 	// oracle
 	dialWindow bool
 	affected   string
+	recovering bool // started while a backend it is routed to was reconnecting after an outage
 	summary    string
 }
 
@@ -486,6 +552,21 @@ type c16Backend struct {
 	key string
 	idx int
 	srv *grpc.Server
+
+	ln  *simnet.Listener
+
+	// backend outage (fault)
+	down      bool
+	outages   int
+	downSince time.Time
+	upAt      time.Time
+
+	// most calls routed to this backend that were ever in flight at the same time, and since when fabio has
+	// held more open connections than that to the backend while it was reachable and in the table
+	maxSimul       int
+	excessSince    time.Time
+	excessReported bool
+	reconnected    bool
 
 	lastDials   int
 	connSeenAt  []time.Time
@@ -526,6 +607,8 @@ type c16Env struct {
 	nextChange int
 	doneCalls  int
 	resetFired bool
+	outage     int // 0: not begun, 1: the backend is down, 2: over
+	outageMark int // completed calls when the outage began
 	clockOps   int
 	settling   bool
 	bound      time.Duration
@@ -867,6 +950,15 @@ func (e *c16Env) events() []simcore.Event {
 			add("op:fault:reset", 1, func() { e.resetConnOf(c) })
 		}
 	}
+	if o := e.sc.Outage; o != nil {
+		switch {
+		case e.outage == 0 && e.doneCalls >= o.AfterDone:
+			add("op:fault:outage-begin", 2, e.beginOutage)
+		case e.outage == 1 && e.doneCalls >= e.outageMark+o.Calls && len(e.d.Sim.Enabled()) == 0:
+			// like every event that lets time pass: only while no task stands at a statement of fabio code
+			add("op:fault:outage-end", 2, e.endOutage)
+		}
+	}
 	// time passes only while no task is at a statement of fabio code: a statement takes no simulated time, so a
 	// task that sits at a yield while the clock runs would be a sweeper (or handler) frozen for seconds
 	if e.clockOps < 12 && len(e.d.Sim.Enabled()) == 0 {
@@ -909,6 +1001,78 @@ func (e *c16Env) resetConnOf(c *c16CallState) {
 	victim.Reset()
 }
 
+// over lists the backends whose fate decides about call c: the one that received it, else the ones it may go to.
+func (c *c16CallState) over() []int {
+	if c.reached > 0 {
+		return []int{c.bIdx}
+	}
+	return c.expect
+}
+
+// beginOutage injects the fault "backend outage": the backend's listener closes (dials are refused from now on)
+// and every connection established to it is reset. The backend stays in the table.
+func (e *c16Env) beginOutage() {
+	b := e.backends[e.sc.Outage.Backend]
+	e.r.Fault("backend_outage")
+	inflight := false
+	e.mu.Lock()
+	e.outage, e.outageMark = 1, e.doneCalls
+	b.down, b.downSince = true, time.Now()
+	b.outages++
+	b.armed, b.completedOK = false, false
+	for _, c := range e.calls {
+		if !c.started || c.cDone {
+			continue
+		}
+		for _, x := range c.over() {
+			if x == b.idx {
+				inflight = true
+				if c.affected == "" {
+					c.affected = "backend-outage"
+				}
+			}
+		}
+	}
+	ln := b.ln
+	e.mu.Unlock()
+	if inflight {
+		e.r.Probe("outage_under_running_calls")
+	}
+	ln.Close()
+	for _, cn := range e.net.Conns(b.key) {
+		if !cn.IsClosed() {
+			cn.Reset()
+		}
+	}
+}
+
+// endOutage lets the rest of the outage pass on the simulated clock and brings the backend back under the same
+// address (same grpc server, new listener).
+func (e *c16Env) endOutage() {
+	o := e.sc.Outage
+	b := e.backends[o.Backend]
+	if o.Duration > 0 {
+		e.d.Advance(o.Duration)
+	}
+	bl, err := e.net.Listen(b.key, simnet.ListenOpts{Auto: true})
+	if err != nil {
+		e.r.Trouble("listen %s again: %v", b.key, err)
+		e.r.Abort()
+	}
+	go b.srv.Serve(bl)
+	e.mu.Lock()
+	b.ln, b.down, b.upAt = bl, false, time.Now()
+	e.outage = 2
+	e.mu.Unlock()
+	if !e.settling {
+		e.r.Probe("outage_ends_before_the_last_call")
+	}
+	if o.Grace > 0 {
+		// nobody calls for a while: what fabio holds may reconnect before the next call
+		e.d.Advance(o.Grace)
+	}
+}
+
 // ---------------------------------------------------------------- observation at quiescent states
 
 func (e *c16Env) observe() {
@@ -921,9 +1085,15 @@ func (e *c16Env) observe() {
 		r.Tracef("fabio opens a client connection to %s", e.dials[e.dialsLog].target)
 	}
 	pendingNoRoute := false
+	inflight := make([]int, len(e.backends))
 	for _, c := range e.calls {
 		if c.dialWindow && len(c.expect) == 0 {
 			pendingNoRoute = true
+		}
+		if c.started && !c.cDone {
+			for _, x := range c.over() {
+				inflight[x]++
+			}
 		}
 	}
 	for _, b := range e.backends {
@@ -933,7 +1103,9 @@ func (e *c16Env) observe() {
 			b.connSeenAt = append(b.connSeenAt, now)
 		}
 		if st.Dials > b.lastDials {
-			justified := b.redialOK
+			// while a backend is down and for the bound after its return, the connections fabio holds reconnect on
+			// their own
+			justified := b.redialOK || b.down || (b.outages > 0 && !now.After(b.upAt.Add(e.bound)))
 			for _, c := range e.calls {
 				if !c.dialWindow {
 					continue
@@ -950,7 +1122,7 @@ func (e *c16Env) observe() {
 			case !justified:
 				r.Fail("dial", "unjustified", "fabio dialled backend %s although no call routed to it was waiting for a connection", b.key)
 			case b.armed:
-				r.Fail("reuse", "new-dial-to-pooled-backend", "fabio dialled backend %s again (%d dials so far) although an earlier call to it had completed, the backend never left the table and no fault touched its connection", b.key, st.Dials)
+				r.Fail("reuse", "new-dial-to-pooled-backend", "fabio dialled backend %s again (%d dials so far) although an earlier call to it had completed (after the end of the outage, if it had one), the backend had not left the table and no fault touched its connection since", b.key, st.Dials)
 			}
 			if st.Dials >= 2 && !b.everAbsent && !b.redialOK {
 				r.Probe("several_dials_to_one_backend")
@@ -983,7 +1155,38 @@ func (e *c16Env) observe() {
 			b.cleanupDue = false
 			r.Probe("connections_closed_after_backend_left")
 		}
-		if s := fmt.Sprintf("dials=%d conns=%d open=%d present=%v", st.Dials, len(conns), open, b.present); s != b.summary {
+		// one connection per backend: while the backend is reachable and has been in the table for longer than the
+		// cleanup bound, fabio may hold one connection to it, or as many as calls routed to it were ever in flight
+		// at the same time (simultaneous first calls may each dial). More than that, for longer than the bound, is
+		// a connection that is not reused by anybody and not dropped either.
+		if inflight[b.idx] > b.maxSimul {
+			b.maxSimul = inflight[b.idx]
+		}
+		allowed := b.maxSimul
+		if allowed < 1 {
+			allowed = 1
+		}
+		if steady := b.present && !b.down && (!b.everAbsent || now.Sub(b.lastAbsent) > e.bound); steady && open > allowed {
+			if b.excessSince.IsZero() {
+				b.excessSince = now
+				r.Probe("more_connections_than_simultaneous_calls")
+			} else if now.Sub(b.excessSince) > e.bound && !b.excessReported {
+				b.excessReported = true
+				r.Fail("reuse", "surplus-connections", "backend %s is reachable and in the table, yet fabio has held %d open connections to it since %s (now %s, more than %s later); never more than %d call(s) routed to it were in flight at the same time, so at most %d connection(s) are in use and the others are neither reused nor dropped (outages of this backend: %d)",
+					b.key, open, b.excessSince.Format("15:04:05.000"), now.Format("15:04:05.000"), e.bound, b.maxSimul, allowed, b.outages)
+			}
+		} else {
+			b.excessSince = time.Time{}
+		}
+		if b.outages > 0 && !b.down && open > 0 && !b.reconnected {
+			b.reconnected = true
+			r.Probe("reconnected_after_outage")
+		}
+		s := fmt.Sprintf("dials=%d conns=%d open=%d present=%v", st.Dials, len(conns), open, b.present)
+		if b.down {
+			s += " down"
+		}
+		if s != b.summary {
 			b.summary = s
 			r.Tracef("backend %s %s", b.key, s)
 		}
@@ -994,16 +1197,21 @@ func (e *c16Env) observe() {
 		if !c.started {
 			continue
 		}
-		if c.affected == "" && !c.cDone {
+		if c.affected == "" && !c.counted {
 			// a backend that is, or within the cleanup bound before this call was, absent from the table may
 			// legitimately lose its connections under the call
-			over := c.expect
-			if c.reached > 0 {
-				over = []int{c.bIdx}
-			}
-			for _, x := range over {
-				if b := e.backends[x]; !b.present || (b.everAbsent && !c.startAt.After(b.lastAbsent.Add(e.bound))) {
+			for _, x := range c.over() {
+				b := e.backends[x]
+				if !b.present || (b.everAbsent && !c.startAt.After(b.lastAbsent.Add(e.bound))) {
 					c.affected = "backend-left-table"
+				}
+				// a call that meets an outage of its backend is lost; one that starts within the bound after the
+				// backend's return may find fabio's connection still waiting to reconnect (see check)
+				if b.down && c.affected == "" {
+					c.affected = "backend-outage"
+				}
+				if b.outages > 0 && !b.down && !c.startAt.After(b.upAt.Add(e.bound)) {
+					c.recovering = true
 				}
 			}
 		}
@@ -1018,6 +1226,9 @@ func (e *c16Env) observe() {
 			e.doneCalls++
 			if c.reached == 1 && c.affected == "" && c.sentOK == len(c.sc.Reply.Msgs) {
 				e.backends[c.bIdx].completedOK = true
+				if c.recovering {
+					r.Probe("call_completed_after_outage")
+				}
 			}
 		}
 		var s string
@@ -1041,9 +1252,12 @@ func (e *c16Env) observe() {
 	// a backend becomes "armed" once a call to it completed undisturbed and nobody is between lookup and backend any
 	// more: from then on a healthy pooled connection exists and every new dial to it is a failure to reuse.
 	for _, b := range e.backends {
-		if !b.armed && b.completedOK && !pending && b.present && !b.redialOK && (!b.everAbsent || now.Sub(b.lastAbsent) > e.bound) {
+		if !b.armed && b.completedOK && !pending && b.present && !b.down && !b.redialOK && (!b.everAbsent || now.Sub(b.lastAbsent) > e.bound) {
 			b.armed = true
 			r.Probe("reuse_armed")
+			if b.outages > 0 {
+				r.Probe("reuse_armed_after_outage")
+			}
 		}
 	}
 	var st strings.Builder
@@ -1084,6 +1298,23 @@ func (e *c16Env) cleanupPending() bool {
 	return false
 }
 
+// outagePending: a backend that had an outage is not back for longer than the bound yet (what fabio holds may
+// still be reconnecting), or a surplus of connections to some backend is being timed.
+func (e *c16Env) outagePending() bool {
+	e.mu.Lock()
+	defer e.mu.Unlock()
+	now := time.Now()
+	for _, b := range e.backends {
+		if b.outages > 0 && !b.down && !now.After(b.upAt.Add(e.bound)) {
+			return true
+		}
+		if !b.excessSince.IsZero() && !b.excessReported {
+			return true
+		}
+	}
+	return false
+}
+
 // ---------------------------------------------------------------- the run
 
 func runC16(r *simcore.Run) {
@@ -1111,10 +1342,14 @@ func runC16(r *simcore.Run) {
 	d.Sim.Activate("proxy:*grpcConnectionPool", "proxy:GetGRPCDirector")
 
 	// package-level state of fabio and of the dial seam, reset for every run
+	// grpc-go's reconnect backoff (documented defaults: 1s growing by 1.6 up to 120s) is kept, but its jitter is
+	// drawn from math/rand and would make the instants of reconnection after an outage irreproducible: pinned to 0
+	reconnect := grpcbackoff.DefaultConfig
+	reconnect.Jitter = 0
 	proxy.ZZGrpcDialOptions = func() []grpc.DialOption {
 		return []grpc.DialOption{grpc.WithContextDialer(func(ctx context.Context, addr string) (net.Conn, error) {
 			return e.net.Dial(ctx, nil, addr, 0)
-		})}
+		}), grpc.WithConnectParams(grpc.ConnectParams{Backoff: reconnect, MinConnectTimeout: 20 * time.Second})}
 	}
 	proxy.ZZGrpcOnDial = func(target string, cc *grpc.ClientConn, err error) {
 		if err == nil {
@@ -1172,6 +1407,7 @@ func runC16(r *simcore.Run) {
 			e.teardown()
 			return
 		}
+		b.ln = bl
 		b.srv = grpc.NewServer(grpc.ForceServerCodec(c16Codec{}), grpc.UnknownServiceHandler(e.backendHandler(b)), grpc.MaxRecvMsgSize(8<<20))
 		go b.srv.Serve(bl)
 	}
@@ -1230,6 +1466,15 @@ func runC16(r *simcore.Run) {
 
 	// settle phase: the remaining table changes happen, then the sweeper gets the time the bound allows
 	e.settling = true
+	if e.outage == 1 {
+		// the backend is still down: time may pass only while no task stands at a statement of fabio code
+		for i := 0; i < 2000 && len(d.Sim.Enabled()) > 0 && d.Step(); i++ {
+		}
+		r.Tracef("op fault:outage-end (after the calls)")
+		e.endOutage()
+		synctest.Wait()
+		e.observe()
+	}
 	for e.nextChange < len(sc.Changes) {
 		ch := sc.Changes[e.nextChange]
 		e.nextChange++
@@ -1239,7 +1484,12 @@ func runC16(r *simcore.Run) {
 		e.observe()
 	}
 	deadline := time.Now().Add(e.bound + 10*time.Second)
-	for i := 0; i < 20000 && e.cleanupPending() && !r.Failed(); i++ {
+	if e.outage == 2 {
+		// fabio's connections get the bound to reconnect to the backend that has returned, and a surplus among them
+		// must outlast another bound before it counts
+		deadline = deadline.Add(e.bound + 10*time.Second)
+	}
+	for i := 0; i < 40000 && (e.cleanupPending() || e.outagePending()) && !r.Failed(); i++ {
 		if d.Step() {
 			continue
 		}
@@ -1367,6 +1617,12 @@ func (e *c16Env) check() {
 		}
 		if c.affected != "" {
 			r.Probe("call_relaxed_" + c.affected)
+			continue
+		}
+		if c.recovering && c.reached == 0 && c.cCode == codes.Unavailable {
+			// the backend was back but fabio's connection had not reconnected yet: the one excuse of a call
+			// that starts within the bound after an outage; any other outcome is compared strictly
+			r.Probe("call_relaxed_backend-recovering")
 			continue
 		}
 		r.Nontrivial()
